@@ -204,4 +204,12 @@ theorem go_running_totals (p : Perf) (es : List Perf) :
     rw [h1]
     exact ih (p.add e)
 
+/-- **a sample the wrapped collector refuses still counts** (seeded change agent8-C14): for the cumulative collector a refusal
+of the n-th sample is a closed gate at that position — what is persisted is the running totals of ALL events with the n-th left
+out, so every later sample still contains the refused event's contribution -/
+theorem refused_sample_still_counts (n : Nat) (es : List Ev) :
+    gatedRun none (List.replicate n true ++ [false] ++ List.replicate es.length true) es
+      = gateFilter (List.replicate n true ++ [false] ++ List.replicate es.length true) (basicRun none es) :=
+  gated_written_are_totals _ es none
+
 end Ftdc.Props.C14
